@@ -17,6 +17,18 @@ Props/C13.v proves to be the identity and to commute with any weight factor).  W
 2^-60 .. 2^60 and 1e-10 .. 1e10 on any one of the three catalogs, and a third of the scenarios
 start from catalogs whose weights are far from 1 themselves.  Amplitudes that are not numbers
 (nan = 0/0 in an empty bin, inf) are compared as well: same non-number in the same place.
+
+The coordinate convention of the INPUT is one more arbitrary convention (transformations "conv:*"): the same sky
+positions - of the base field, of the field turned so that the RA = 0 meridian cuts it between patches or runs
+through all of them, of the field turned onto a pole - are given in degrees or in radian (degrees=False), with the right ascension in [0, period), in
+(-period/2, period/2] (what arctan2 returns), shifted by +-period as a whole or by an own multiple of the period per
+object (period = 360 deg / 2 pi), for all catalogs or only one of them, the centres (always radian) in the same
+re-expressed form or not.  The unchanged code accepts every finite right ascension (no range check: deg2rad, then
+cos / sin), so all of these are inputs it takes; declinations stay in [-90, 90].  Each twin is compared with the
+base run the way a rotation is (raw counts and everything sampled from them exact, near ties skipped), and the
+positions the catalogs stored are held against the model of the reading function (Model/Invariance.v: read, periodic
+in the right ascension and blind to the unit, Props/C13.v C13_count_ra_convention ...): stored unit vectors of the twin
+= unit vectors of the same points given in degrees within [0, 360], to 2^-40 (rows of a catalog paired by distance).
 """
 import math
 import os
@@ -35,18 +47,25 @@ ASSUMPTIONS = ["weights are dyadic (small set times a power of two per catalog);
                "(3, 1e-10, 1e-8, 1e10, m*10^u) are compared to 2^-40 of the largest entry wherever the base run holds a number",
                "where the base run (exact sums of dyadic numbers) holds 0/0 or x/0 - a jackknife sample that leaves nothing in a bin - the twin after "
                "an inexact factor is not constrained: the code forms leave-one-out sums as total - row - column + diagonal, whose exact 0 becomes a "
-               "rounding residual (seen: norm 2.6e-23 instead of 0, nan turns into inf); counted as degenerate_sample_differs_after_inexact_factor"]
-RULE = ("cases = (base scenario, transformation in {rotation, row shuffle, centre permutation, weight factor on one of ref/unk/rand, 2-split}), "
+               "rounding residual (seen: norm 2.6e-23 instead of 0, nan turns into inf); counted as degenerate_sample_differs_after_inexact_factor",
+               "input conventions: right ascensions are finite values within three periods of [0, period) (the code has no range check on them), "
+               "declinations within [-90 deg, 90 deg]; a twin in another convention moves the stored unit vectors by rounding errors only, so it is "
+               "filtered for near ties and compared exactly, like a rotation"]
+RULE = ("cases = (base scenario, transformation in {rotation, row shuffle, centre permutation, weight factor on one of ref/unk/rand, 2-split, "
+        "input convention: field (base / cut by the RA=0 meridian / laid along it / on a pole) x unit (deg / rad) x RA range (canonical / signed / +-period / "
+        "own multiple per object) x catalogs (all / one) x centres (canonical / re-expressed)}), "
         "each compared as measured and after CorrFunc.to_file/from_file; distinct by scenario seed + transformation parameters; "
         "non-trivial when the base measurement has non-zero counts")
 HEADER = "From Verif Require Import Prelude Invariance.\nOpen Scope Q_scope.\n"
 
 
+def axis_angle(ax, th):
+    ax = np.asarray(ax, dtype="f8"); ax /= np.linalg.norm(ax)
+    K = np.array([[0, -ax[2], ax[1]], [ax[2], 0, -ax[0]], [-ax[1], ax[0], 0]])
+    return np.eye(3) + math.sin(th) * K + (1 - math.cos(th)) * (K @ K)
+
+
 def rot_matrix(rng, kind):
-    def axis_angle(ax, th):
-        ax = np.asarray(ax, dtype="f8"); ax /= np.linalg.norm(ax)
-        K = np.array([[0, -ax[2], ax[1]], [ax[2], 0, -ax[0]], [-ax[1], ax[0], 0]])
-        return np.eye(3) + math.sin(th) * K + (1 - math.cos(th)) * (K @ K)
     if kind == "random":
         return axis_angle([rng.gauss(0, 1) for _ in range(3)], rng.uniform(0, 2 * math.pi))
     if kind == "to_pole":   # base region sits at (ra0, dec0) = (40, 10): rotate it onto the north pole
@@ -63,9 +82,93 @@ def rotate(pts_deg, R):
     return [(float(np.rad2deg(a)), float(np.rad2deg(b))) for a, b in out]
 
 
-def make(ctx, name, pts, w, z, centers):
+# ---- the coordinate convention of the input
+PERIOD = {"deg": 360.0, "rad": 2.0 * math.pi}
+RA_RANGES = ("canonical", "signed", "plus", "minus", "mixed")
+
+
+def field_rotation(rng, field, cents):
+    """where the field is put before it is re-expressed: left alone, turned about the z axis so that the RA = 0
+    meridian cuts it (through the neighbourhood of a centre: whole patches on either side), laid along the meridian
+    (every patch on both sides), or turned so that a point of it sits on a pole"""
+    if field == "base":
+        return np.eye(3), {}
+    c = rng.choice(cents)
+    if field == "across_ra0":
+        cut = c[0] + rng.uniform(-0.35, 0.35)
+        return axis_angle([0, 0, 1], -math.radians(cut)), dict(meridian_through_ra=float(cut).hex())
+    if field == "along_ra0":
+        # the chain of patches runs east-west: a quarter turn about the middle of the field lays it north-south, then the
+        # middle goes onto the meridian, which now passes through every patch
+        mid = (sum(q[0] for q in cents) / len(cents), sum(q[1] for q in cents) / len(cents))
+        v = impl.AngularCoordinates(np.deg2rad(np.asarray([mid]))).to_3d()[0]
+        turn = rng.choice([1.0, -1.0]) * math.radians(90.0 + rng.uniform(-10.0, 10.0))
+        cut = mid[0] + rng.uniform(-0.15, 0.15)
+        return axis_angle([0, 0, 1], -math.radians(cut)) @ axis_angle(v, turn), dict(turn_about_field_middle=float(turn).hex(),
+                                                                                      meridian_through_ra=float(cut).hex())
+    if field == "pole":
+        p = offset(c[0], c[1], rng.uniform(-0.3, 0.3), rng.uniform(-0.3, 0.3))
+        v = impl.AngularCoordinates(np.deg2rad(np.asarray([p]))).to_3d()[0]
+        sign = rng.choice([1.0, -1.0])
+        pole = np.array([0.0, 0.0, sign])
+        R = axis_angle(np.cross(v, pole), math.acos(max(-1.0, min(1.0, float(v @ pole)))))
+        spin = rng.uniform(0, 2 * math.pi)
+        return axis_angle([0, 0, 1], spin) @ R, dict(point_on_pole=[float(x).hex() for x in p], pole="north" if sign > 0 else "south",
+                                                      spin=float(spin).hex())
+    raise ValueError(field)
+
+
+def reexpress(rng, pts_deg, unit, ra_range):
+    """the same sky positions (given in degrees, RA in [0, 360]) in another convention the code accepts: unit deg / rad,
+    RA in [0, period) (canonical), (-period/2, period/2] (signed), all + period, all - period, an own multiple per object"""
+    per = PERIOD[unit]
+    out = []
+    for ra, dec in pts_deg:
+        a, d = (ra, dec) if unit == "deg" else (float(np.deg2rad(ra)), float(np.deg2rad(dec)))
+        if ra_range == "signed":
+            a = a - per if a > per / 2 else a
+        elif ra_range == "plus":
+            a = a + per
+        elif ra_range == "minus":
+            a = a - per
+        elif ra_range == "mixed":
+            a = a + rng.choice([-2, -1, -1, 0, 1, 1, 2]) * per
+        elif ra_range != "canonical":
+            raise ValueError(ra_range)
+        out.append((a, d))
+    return out
+
+
+def stored_vecs(res):
+    """unit vectors of the positions the catalogs hold: per catalog, patches in id order, rows as stored"""
+    vecs = {}
+    for name, cat in zip(("ref", "unk", "rand"), res["cats"]):
+        v = []
+        for pid, patch in sorted(cat.items(), key=lambda kv: int(kv[0])):
+            d = patch.load_data()
+            v.extend(impl.AngularCoordinates(np.column_stack([d["ra"], d["dec"]])).to_3d())
+        vecs[name] = v
+    return vecs
+
+
+def paired(u, s):
+    """rows of s (stored unit vectors, any order) paired with the rows of u (the positions handed over): nearest first"""
+    if len(u) != len(s):
+        return [float(x) for x in u.ravel()], [float(x) for x in s.ravel()]
+    free = list(range(len(s)))
+    out = []
+    for row in u:
+        j = min(free, key=lambda k: float(np.sum((s[k] - row) ** 2)))
+        free.remove(j)
+        out.extend(float(x) for x in s[j])
+    return [float(x) for x in u.ravel()], out
+
+
+def make(ctx, name, pts, w, z, centers, degrees=True):
     cols = {"ra": [p[0] for p in pts], "dec": [p[1] for p in pts], "w": w}
     kw = dict(ra_name="ra", dec_name="dec", weight_name="w", patch_centers=centers, max_workers=1)
+    if not degrees:
+        kw["degrees"] = False
     # how the table is cut into chunks on ingest is one more arbitrary convention: every creation draws its own
     # chunk size (None = one chunk; otherwise mostly not a divisor of the row count)
     n = len(pts)
@@ -79,12 +182,18 @@ def make(ctx, name, pts, w, z, centers):
 
 
 def measure(ctx, cfg, scen, tag):
-    """scen: dict(cents, ref=(pts,w,z), unk=(pts,w), rand=(pts,w,z)) -> numbers + catalogs"""
+    """scen: dict(cents, ref=(pts,w,z), unk=(pts,w), rand=(pts,w,z)) -> numbers + catalogs
+    optional: radian = names of the catalogs whose points are given in radian (degrees=False),
+    cents_rad = the centres as given (radian, any RA range) instead of deg2rad(cents)"""
     import yaw
-    centers = impl.AngularCoordinates(np.deg2rad(np.asarray(scen["cents"])))
-    ref = make(ctx, "ref" + tag, *scen["ref"], centers)
-    unk = make(ctx, "unk" + tag, scen["unk"][0], scen["unk"][1], None, centers)
-    rand = make(ctx, "rand" + tag, *scen["rand"], centers)
+    if scen.get("cents_rad") is not None:
+        centers = impl.AngularCoordinates(np.asarray(scen["cents_rad"], dtype="f8"))
+    else:
+        centers = impl.AngularCoordinates(np.deg2rad(np.asarray(scen["cents"])))
+    rad = scen.get("radian", ())
+    ref = make(ctx, "ref" + tag, *scen["ref"], centers, degrees="ref" not in rad)
+    unk = make(ctx, "unk" + tag, scen["unk"][0], scen["unk"][1], None, centers, degrees="unk" not in rad)
+    rand = make(ctx, "rand" + tag, *scen["rand"], centers, degrees="rand" not in rad)
     cross = yaw.crosscorrelate(cfg, ref, unk, ref_rand=rand, max_workers=1)
     auto = yaw.autocorrelate(cfg, ref, rand, max_workers=1)
     out = dict(cats=(ref, unk, rand), cross=cross, auto=auto)
@@ -192,17 +301,10 @@ def is_pow2(k):
     return math.frexp(k)[0] == 0.5
 
 
-def ties(res, cfg, edges):
+def ties(res, cfg, edges, vecs=None):
     """near-tie filter on the exact chords of every pair of every catalog pair"""
-    ref, unk, rand = res["cats"]
     zmid = [(a + b) / 2 for a, b in zip(edges[:-1], edges[1:])]
-    vecs = {}
-    for name, cat in (("ref", ref), ("unk", unk), ("rand", rand)):
-        v = []
-        for pid, patch in cat.items():
-            d = patch.load_data()
-            v.extend(impl.AngularCoordinates(np.column_stack([d["ra"], d["dec"]])).to_3d())
-        vecs[name] = v
+    vecs = vecs if vecs is not None else stored_vecs(res)
     K = scale_of([np.asarray(v) for v in vecs.values()])
     iv = {k: [[to_int(x, K) for x in p] for p in v] for k, v in vecs.items()}
     thr = []
@@ -300,6 +402,27 @@ def run(ctx):
                 m, u = rng.choice([3.0, 0.7, 1.9, 5.5]), rng.randint(-12, 12)
                 trs.append(("weight:%s:%ge%d" % (c, m, u), True, (c, m * 10.0 ** u)))
         trs.append(("split", False, None))
+        # the coordinate convention of the input: field x unit x RA range x catalogs x centres
+        def conv(field, unit, ra_range, which, centres):
+            if field == "base" and ra_range == "signed":
+                ra_range = "minus"          # RA about 40 deg: (-180, 180] is [0, 360) there
+            if unit == "deg" and ra_range == "canonical":
+                ra_range = "plus"           # degrees in [0, 360) is what every other twin is given
+            crange = None if not centres else ra_range if ra_range != "canonical" else "minus" if field == "base" else "signed"
+            name = "conv:%s:%s:%s:%s:%s" % (field, unit, ra_range, which, "centres-" + crange if centres else "centres-canonical")
+            return (name, True, dict(field=field, unit=unit, range=ra_range, which=which, crange=crange))
+        WHICH = ("all", "all", "ref", "unk", "rand")
+        cv = [conv("along_ra0", "rad", "signed", "all", sc % 2 == 1),       # what arctan2 gives for a field on the meridian
+              conv("pole", rng.choice(["deg", "rad"]), rng.choice(RA_RANGES[1:]), rng.choice(WHICH), rng.random() < 0.5),
+              conv("base", "rad", "canonical", rng.choice(WHICH), False)]   # the unit alone: stored values bit for bit
+        for _ in range(ctx.n(1, 4)):
+            cv.append(conv(rng.choice(["base", "across_ra0", "across_ra0", "along_ra0", "pole"]), rng.choice(["deg", "rad"]), rng.choice(RA_RANGES),
+                           rng.choice(WHICH), rng.random() < 0.5))
+        if not ctx.quick():
+            cv.append(conv("across_ra0", "deg", "signed", rng.choice(WHICH), sc % 2 == 0))
+            cv.append(conv("across_ra0", "rad", rng.choice(["minus", "mixed"]), rng.choice(WHICH[2:]), False))
+        seen = set()
+        trs += [c for c in cv if not (c[0] in seen or seen.add(c[0]))]
 
         for tr, forced, par in trs:
             if ctx.quick() and not forced and rng.random() < 0.35:
@@ -333,6 +456,25 @@ def run(ctx):
                     t = dict(base, **{which: (old[0], [x * k for x in old[1]]) + tuple(old[2:])})
                     exact = is_pow2(k)
                     meta0.update(catalog=which, factor=float(k).hex(), factor_is_power_of_two=exact)
+                elif kind == "conv":
+                    R, rpar = field_rotation(rng, par["field"], cents)
+                    moved = (lambda pts: rotate(pts, R)) if par["field"] != "base" else (lambda pts: [tuple(q) for q in pts])
+                    names = ("ref", "unk", "rand") if par["which"] == "all" else (par["which"],)
+                    t = dict(cents=moved(cents), radian=names if par["unit"] == "rad" else ())
+                    negative = outside = 0
+                    canon = {}
+                    for c in ("ref", "unk", "rand"):
+                        pts = canon[c] = moved(base[c][0])
+                        if c in names:
+                            pts = reexpress(rng, pts, par["unit"], par["range"])
+                            negative += sum(1 for q in pts if q[0] < 0)
+                            outside += sum(1 for q in pts if not 0 <= q[0] < PERIOD[par["unit"]])
+                        t[c] = (pts,) + tuple(base[c][1:])
+                    if par["crange"]:
+                        t["cents_rad"] = reexpress(rng, t["cents"], "rad", par["crange"])
+                    meta0.update(field=par["field"], field_rotation=rpar, unit=par["unit"], ra_range=par["range"], catalogs=par["which"],
+                                 centres_ra_range=par["crange"] or "canonical", rows_with_negative_ra=negative,
+                                 rows_with_ra_outside_one_period=outside)
                 if tr == "split":
                     n = len(base["unk"][0]); mask = [rng.random() < 0.5 for _ in range(n)]
                     parts = []
@@ -360,14 +502,39 @@ def run(ctx):
                     ctx.count(key=(sc, tr), nontrivial=nonzero, kind="split")
                     for pr in parts: cleanup(pr)
                     continue
-                rt = measure(ctx, cfg, t, "t")
+                if kind == "conv":
+                    try:
+                        rt = measure(ctx, cfg, t, "t")
+                    except Exception as e:
+                        # the same positions, patch for patch, as the base run that was measured: nothing to refuse
+                        ctx.count(key=(sc, tr), nontrivial=nonzero, kind=kind)
+                        ctx.fail("c13-conv-twin-refused",
+                                 "the catalogs of an accepted measurement, given in another coordinate convention the code takes, raise %s: %s"
+                                 % (type(e).__name__, str(e)[:200]), dict(meta0, route="memory"), case=cid)
+                        continue
+                else:
+                    rt = measure(ctx, cfg, t, "t")
             except ValueError as e:
                 if "contains no data" in str(e) or "do not match" in str(e):
                     ctx.bump("skipped_empty_patch"); continue
                 raise
-            if kind == "rot" and ties(rt, cfg, edges):
+            vt = stored_vecs(rt) if kind == "conv" else None
+            if kind in ("rot", "conv") and ties(rt, cfg, edges, vt):
                 ctx.bump("near_tie_skipped"); cleanup(rt); continue
             ctx.count(key=(sc, tr), nontrivial=nonzero, kind=kind)
+            if kind == "conv":
+                for lab in ("field=" + par["field"], "unit=" + par["unit"], "ra=" + par["range"], "catalogs=" + par["which"],
+                            "centres=" + (par["crange"] or "canonical"), "negative_ra=" + ("some" if negative else "none")):
+                    ctx.bump("conv:" + lab)
+                # the positions the catalogs hold against the model of the reading function (periodic in RA, blind to the unit):
+                # those of the same points given in degrees within [0, 360]; a patch keeps its rows in an order of its own
+                # (it depends on how the table was cut into chunks), so rows are paired with the nearest position
+                want, have = [], []
+                for c in ("ref", "unk", "rand"):
+                    u = impl.AngularCoordinates(np.deg2rad(np.asarray(canon[c]))).to_3d()
+                    w_, h_ = paired(u, np.asarray(vt[c]))
+                    want.extend(w_); have.extend(h_)
+                add("c13_case_scaled %s %s" % (fq.qlist(want), fq.qlist(have)), cid, dict(meta0, route="memory"), None, "position")
             if kind == "weight":
                 ctx.bump("weight_factor:%s" % ("power-of-two" if exact else "other") + (":far" if abs(math.log2(par[1])) >= 20 else ":near"))
             # ---- compare, as measured and after the file round trip (both runs of the pair take the same route)
@@ -396,11 +563,13 @@ def run(ctx):
                     add(cmp_term("exact" if exact else "rounded", b["nz"], o["nz"]), rcid, meta, "c13-weight-scale-changes-nz" + suffix,
                         "multiplying all weights of one catalog by a positive constant changes the redshift estimate")
                 else:
-                    sig = "c13-rotation-changes-counts" if kind == "rot" else "c13-row-order-changes-counts"
+                    sig = {"rot": "c13-rotation-changes-counts", "conv": "c13-input-convention-changes-counts"}.get(kind, "c13-row-order-changes-counts")
                     add("c13_case true %s %s" % (fq.qlist(b["counts"]), fq.qlist(o["counts"])), rcid, meta, sig + suffix,
-                        "a rigid rotation / a row permutation of all catalogs changes the raw pair counts or weight sums")
+                        "a rigid rotation / a row permutation of all catalogs / giving the same positions in another unit or right-ascension "
+                        "range changes the raw pair counts or weight sums")
                     add(cmp_term("exact", b["samp"] + b["nz"], o["samp"] + o["nz"]), rcid, meta, sig.replace("counts", "amplitudes") + suffix,
-                        "a rigid rotation / a row permutation changes amplitudes, redshift estimate or covariance")
+                        "a rigid rotation / a row permutation / giving the same positions in another unit or right-ascension range changes "
+                        "amplitudes, redshift estimate or covariance")
                 if not (finite(b["samp"]) and finite(b["nz"])):
                     ctx.bump("cases_with_non_numbers_compared")
                 if kind == "weight" and not exact and (pattern(b["samp"]) != pattern(o["samp"]) or pattern(b["nz"]) != pattern(o["nz"])):
@@ -420,7 +589,11 @@ def run(ctx):
     # what was read back against the model of the stored form: a correspondence, not the property itself
     for i, cid, meta, sig, what in cases:
         c = codes[i]
-        if c and sig is None:
+        if c and sig is None and what == "position":
+            ctx.disagree("c13-stored-position-differs-from-model", cid,
+                         dict(meta, code=c, what="the unit vectors of the positions the catalogs hold are not those of the points that were given (as read "
+                                                 "from degrees within [0, 360]): the reading function of the model is periodic in the right ascension and blind to the unit"))
+        elif c and sig is None:
             case = failing_file_case.get(cid[0], cid) if what == "base" else cid
             ctx.disagree("c13-stored-counts-differ-from-model", case,
                          dict(meta, code=c, what="counts read back from CorrFunc.from_file are not the stored form (rows with a non-zero count) of what was written"))
